@@ -56,4 +56,9 @@ TinyInstances == { i \in AllInstances : /\ i.ch[1] = MotorA /\ i.dt = "1/2" /\ i
                                                          << Const("0", "1", "1/2"), Const("1/2", "1", "-1/2") >> } }
 StopInstances == { i \in AllInstances : ~i.hasCtrl /\ i.ch[1] = MotorB /\ Len(i.ch) <= 3 /\ i.ld.c2 = "0" /\ i.ld.c3 = "0" }
 RunLens == {1, 2}
+NoUser == {}
+\* user interventions between calls (MC_Solver_user.cfg): duty cycle 0 / reversed / a fraction; output re-indexed at rest or with a speed
+UserPwmSet == {"0", "-1"}
+UserStateSet == { [pos |-> "1/2", spd |-> "0"], [pos |-> "0", spd |-> "-2"] }
+UserInstances == { i \in TinyInstances : i.ctrl \in { <<>>, << Const("1/2", "1/2", "-1") >> } /\ i.ld.c1 = "0" /\ i.ld.c0 # "-3" /\ i.spd0 = "0" }
 =============================================================================
